@@ -530,6 +530,15 @@ def random_program(rng: random.Random, n, style="str", family=None, rich=True, n
         for i in range(w, n):
             lo = ((i // w) - 1) * w
             deps[i] = list(range(lo, min(lo + w, i)))
+    elif family == "pairs":
+        # many independent roots, then one task per (random) pair of roots, then a few joins:
+        # wide ready lists whose batches become half-empty (stresses batch/worker accounting)
+        r = max(3, min(n - 1, int((2 * n) ** 0.5) + rng.randint(0, 2)))
+        for i in range(r, n):
+            if i < n - max(1, n // 8):
+                deps[i] = sorted(rng.sample(range(r), 2))
+            else:
+                deps[i] = sorted(rng.sample(range(r, i), min(i - r, rng.randint(1, 3)))) if i > r else []
     elif family == "layered":
         layers = []
         i = 0
@@ -551,7 +560,7 @@ def random_program(rng: random.Random, n, style="str", family=None, rich=True, n
         key = key_of(style, i, perm)
         ds = deps[i]
         kind = rng.choice(kind_choices(len(ds)) + ("call",) * 3)
-        if i in failset:
+        if i in failset or family == "pairs":
             kind = "call"
         if kind == "lit":
             nodes.append(Node(i, key, "lit", lit=rng.choice(LITS)))
